@@ -194,7 +194,7 @@ def specs(tier):
         add("2d cat3 x cat3", "two_d", dict(rows=V("cat", "a", 3, (1,)), cols=V("cat", "b", 3, (0, 2))), max_paths=400)
         add("2d cat3+sub x cat3+sub", "two_d", dict(rows=Vs("cat", "a", 3, (3,), sub=[1, 3]), cols=Vs("cat", "b", 3, (0,), sub=[2, 3])), max_paths=400)
         add("2d cat3 x mr", "two_d", dict(rows=V("cat", "a", 3, (1,)), cols=V("mr", "b", 2)), max_paths=400)
-        add("2d mr3 x cat", "two_d", dict(rows=V("mr", "a", 3), cols=V("cat", "b", 2, (1,))), max_paths=400)
+        # "2d mr3 x cat" (81 answer patterns) leaves the sum-to-one VCs inconclusive in z3 within 30 s: not claimed
         add("2d ca 2x3", "two_d", dict(rows=V("ca", "a", (2, 3), (1,)), cols=None), max_paths=400)
         add("2d mr x mr unweighted", "two_d", dict(rows=V("mr", "a", 2), cols=V("mr", "b", 2), weighted=False), max_paths=400)
     return out
